@@ -111,6 +111,12 @@ void runLife(const Scn &scn, Out &out)
         else if (p[0] == "ackall") { if (tcp) tcp->ackAll(); }
         else if (p[0] == "ack") { if (tcp) tcp->ack(p[1].toLongLong()); }
         else if (p[0] == "peerclose") { if (tcp) tcp->peerClose(); }
+        else if (p[0] == "killhandler") {
+            // the handler object is replaced and destroyed while the request it was given is in flight (it has
+            // been routed: before that the token does nothing); what it started for the connection is not its own
+            Socket *hs = server ? sp->findChild<Socket *>() : nullptr;
+            if (server && handler && hs && hs->isHeadersParsed()) { server->setHandler(nullptr); delete handler; handler = nullptr; }
+        }
         else if (p[0] == "killserver") { if (server) { if (tcp) tcp->log = nullptr; delete server; server = nullptr; } }
     }
     // both sides closed, then quiescence
